@@ -768,6 +768,7 @@ package gohlslib
 //@        (callarg("muxerSegmenter.fmp4WriteSample", 0, 2) == 1 && !s.pendingParamsChange)
 //@   ensures (calls("muxerSegmenter.fmp4WriteSample") == 1 && callarg("muxerSegmenter.fmp4WriteSample", 0, 2) == 1 && callarg("muxerSegmenter.fmp4WriteSample", 0, 3) == 0) ==> !s.pendingParamsChange
 //@   ensures (calls("muxerSegmenter.fmp4WriteSample") == 1 && callarg("muxerSegmenter.fmp4WriteSample", 0, 2) == 1 && old(s.pendingParamsChange)) ==> callarg("muxerSegmenter.fmp4WriteSample", 0, 3) == 1
+//@   loop 1 invariant nolocks() && track.stream == old(track.stream) && track.stream.mutex == old(track.stream.mutex)
 //@   loop 1 invariant ri < len(au) && randomAccess == exists(i, 0 <= i && i <= ri && mod(au[i][0], 32) == 5)
 //@   loop 1 invariant nonIDRPresent == exists(i, 0 <= i && i <= ri && mod(au[i][0], 32) == 1)
 //@   loop 1 invariant old(s.pendingParamsChange) ==> s.pendingParamsChange
@@ -794,6 +795,7 @@ package gohlslib
 //@        && (callarg("muxerSegmenter.fmp4WriteSample", 0, 2) == 1) == exists(i, 0 <= i && i < len(au) && mod(div(au[i][0], 2), 64) >= 19 && mod(div(au[i][0], 2), 64) <= 21))
 //@   ensures (calls("muxerSegmenter.fmp4WriteSample") == 1 && callarg("muxerSegmenter.fmp4WriteSample", 0, 3) == 1) ==> (callarg("muxerSegmenter.fmp4WriteSample", 0, 2) == 1 && !s.pendingParamsChange)
 //@   ensures (calls("muxerSegmenter.fmp4WriteSample") == 1 && callarg("muxerSegmenter.fmp4WriteSample", 0, 2) == 1 && old(s.pendingParamsChange)) ==> callarg("muxerSegmenter.fmp4WriteSample", 0, 3) == 1
+//@   loop 1 invariant nolocks() && track.stream == old(track.stream) && track.stream.mutex == old(track.stream.mutex)
 //@   loop 1 invariant ri < len(au) && randomAccess == exists(i, 0 <= i && i <= ri && mod(div(au[i][0], 2), 64) >= 19 && mod(div(au[i][0], 2), 64) <= 21)
 //@   loop 1 invariant old(s.pendingParamsChange) ==> s.pendingParamsChange
 //@   loop 1 invariant calls("muxerSegmenter.fmp4WriteSample") == 0 && track.firstRandomAccessReceived == old(track.firstRandomAccessReceived)
@@ -830,6 +832,7 @@ package gohlslib
 //@   ensures calls("muxerSegmenter.fmp4WriteSample") <= 1
 //@   ensures (calls("muxerSegmenter.fmp4WriteSample") == 1 && callarg("muxerSegmenter.fmp4WriteSample", 0, 3) == 1) ==> (callarg("muxerSegmenter.fmp4WriteSample", 0, 2) == 1 && !s.pendingParamsChange)
 //@   ensures (calls("muxerSegmenter.fmp4WriteSample") == 1 && callarg("muxerSegmenter.fmp4WriteSample", 0, 2) == 1 && old(s.pendingParamsChange)) ==> callarg("muxerSegmenter.fmp4WriteSample", 0, 3) == 1
+//@   loop 1 invariant nolocks() && track.stream == old(track.stream) && track.stream.mutex == old(track.stream.mutex)
 //@   loop 1 invariant ri < len(tu) && (old(s.pendingParamsChange) ==> s.pendingParamsChange) && calls("muxerSegmenter.fmp4WriteSample") == 0
 //@   loop 1 invariant track.firstRandomAccessReceived == old(track.firstRandomAccessReceived)
 //@   atcall muxerSegmenter.fmp4WriteSample arg1 == track && arg4.dts == pts && arg4.ntp == ntp && arg4.PTSOffset == 0
@@ -1015,6 +1018,7 @@ package gohlslib
 //@   props C09
 //@   lemma
 //@   nosafety
+//@   requires anylock()
 //@   requires c != nil && ref(c) != 0 && (is(c, *codecs.AV1) || is(c, *codecs.VP9) || is(c, *codecs.H265) || is(c, *codecs.H264) || is(c, *codecs.Opus) || is(c, *codecs.MPEG4Audio))
 //@   ensures result
 //@ end
@@ -1244,6 +1248,7 @@ package gohlslib
 
 //@ func muxerStream.populateMultivariantPlaylist
 //@   props C16
+//@   requires anylock()
 //@   modifies pl.Renditions, pl.Variants[0].URI, pl.Variants[0].Audio, pl.Variants[0].Codecs, pl.Variants[0].Resolution, pl.Variants[0].FrameRate
 //@   requires pl != nil && len(pl.Variants) >= 1 && pl.Variants[0] != nil
 //@   requires forall(i, (0 <= i && i < len(s.tracks)) ==> (s.tracks[i] != nil && s.tracks[i].Track != nil))
@@ -1410,10 +1415,12 @@ package gohlslib
 //@   nosafety
 //@   nocallpre
 //@   requires s.variant == MuxerVariantMPEGTS && track != nil && track.Track != nil && track.ClockRate > 0 && track.stream != nil && is(track.Codec, *codecs.H264) && ref(track.Codec) != 0
+//@   requires nolocks() && track.stream.mutex != nil
 //@   requires s.parent != nil && is(s.parent, *Muxer) && ref(s.parent) != 0
 //@   requires forall(i, (0 <= i && i < len(au)) ==> len(au[i]) >= 1)
 //@   requires track.stream.nextSegment != nil ==> (isM(track.stream.nextSegment) && ref(track.stream.nextSegment) != 0)
 //@   modifies *
+//@   loop 1 invariant nolocks() && track.stream == old(track.stream) && track.stream.mutex == old(track.stream.mutex)
 //@   loop 1 invariant ri < len(au) && randomAccess == exists(i, 0 <= i && i <= ri && mod(au[i][0], 32) == 5)
 //@   loop 1 invariant nonIDRPresent == exists(i, 0 <= i && i <= ri && mod(au[i][0], 32) == 1)
 //@   loop 1 invariant old(s.pendingParamsChange) ==> s.pendingParamsChange
@@ -1488,4 +1495,12 @@ package gohlslib
 //@   atcall muxerSegmenter.fmp4WriteSample arg1 == track && arg2 && !arg3 && arg4.Payload == au && arg4.PTSOffset == 0
 //@   atcall muxerSegmenter.fmp4WriteSample arg4.dts == pts + div(i * 1024 * track.ClockRate, sampleRate)
 //@   reachable result == nil && calls("muxerSegmenter.fmp4WriteSample") == 2
+//@ end
+
+// C08: constructors of shared objects run before the object is published
+//@ func clientSegmentQueue.initialize
+//@   props C08 C20
+//@   role init
+//@   modifies q.didPush, q.didPull
+//@   ensures q.didPush != nil && q.didPull != nil
 //@ end
